@@ -365,7 +365,42 @@ def check_sinks(ctx, R="C15.sinks"):
             )
         else:
             ctx.ok(R, fn, f"{q}: `{local}` is only ever extended in a program-defined order ({r})")
-    ctx.floor(R, n, 5, "order sinks")
+    # the names of a scenario's locals: the compiler emits `_locals = frozenset((...))` into every compiled behaviour / scenario
+    # class, so whoever turns them into an ordered collection (the dependencies of a LocalsSnapshot) must sort them first
+    comp = model.module("scenic.syntax.compiler")
+    emitted_unordered = False
+    n_emit = 0
+    for c in ast.walk(comp.tree):
+        if isinstance(c, ast.Call) and dotted(c.func) == "ast.Assign" and c.args and "'_locals'" in unparse(c.args[0]):
+            n_emit += 1
+            val = c.args[1] if len(c.args) > 1 else None
+            fn_c = lib.enclosing_function(c)
+            vts = [unparse(val)] if val is not None else []
+            if isinstance(val, ast.Name) and fn_c is not None:
+                # every value the local handed to ast.Assign may hold
+                vts += [unparse(a.value) for a in walk_local(fn_c) if isinstance(a, ast.Assign) and any(isinstance(t, ast.Name) and t.id == val.id for t in a.targets)]
+            if any("'frozenset'" in vt or "'set'" in vt for vt in vts):
+                emitted_unordered = True
+    if n_emit == 0:
+        raise AnalysisError("shape not recognised: the compiler no longer emits `_locals = ...`")
+    ds = model.module("scenic.core.dynamics.scenarios")
+    snap = ds.functions.get("DynamicScenario._makeLocalsSnapshot")
+    if snap is None:
+        raise AnalysisError("shape not recognised: DynamicScenario._makeLocalsSnapshot")
+    n += 1
+    loops_ = [l for l in walk_local(snap) if isinstance(l, (ast.For, ast.comprehension)) and "_locals" in unparse(l.iter)]
+    bad_ = [l for l in loops_ if not (isinstance(l.iter, ast.Call) and dotted(l.iter.func) == "sorted")]
+    if emitted_unordered and bad_:
+        ctx.finding(
+            R,
+            snap,
+            "locals snapshot in hash order",
+            f"DynamicScenario._makeLocalsSnapshot iterates `{unparse(bad_[0].iter)}`, which the compiler defines as a frozenset of names, to build the dependencies of the LocalsSnapshot: the "
+            f"random values bound to a scenario's locals are then sampled in string-hash order, so the same program and seed give different scenes under another PYTHONHASHSEED",
+        )
+    else:
+        ctx.ok(R, snap, "the locals of a scenario are snapshotted in sorted order" if emitted_unordered else "the compiler emits the local names as an ordered collection")
+    ctx.floor(R, n, 6, "order sinks")
     PRE = ("random.", "numpy.random.", "np.random.", "trimesh.sample.")
     NOT_DRAWS = ("getstate", "setstate", "get_state", "set_state", "default_rng", "seed", "Random", "RandomState", "Generator")
     nd = 0
